@@ -21,9 +21,10 @@ DROPS = {
     "D1": "outer attributes (#[derive], #[must_use], #[track_caller], #[doc]) and visibility-irrelevant doc comments of taken items are dropped unless listed by @@keep-attrs",
     "D2": "token substitutions requested by @@subst (each listed with its text)",
     "D3": "macro_rules! templates are instantiated textually ($t -> type, $crate -> crate)",
-    "R1": "`for P in X { B }` -> `let mut it = X; loop { let P = match it.next() { Some(v) => v, None => break }; B }` and `for (i, P) in X.enumerate()` -> the same plus `let mut i: usize = 0;` before and `i += 1;` as last statement of the body (Rust's own desugaring of `for`, and the definition of `enumerate`); refused if B contains `continue`",
+    "R1": "`for P in X { B }` -> `let mut it = X; loop { let P = match it.next() { Some(v) => v, None => break }; B }` and `for (i, P) in X.enumerate()` -> the same plus `let mut i: usize = 0;` before and `i += 1;` as last statement of the body (Rust's own desugaring of `for`, and the definition of `enumerate`); the enumerate form is refused if B contains `continue` (in the plain form `continue` means the same in both loops)",
     "R2": "`format!(..)` -> call of an external_body fn `fmt_opaque() -> String` (message text is not reasoned about in Verus)",
     "R3": "named return value: `-> T` becomes `-> (r: T)` (ghost naming only)",
+    "R7": "`match X { \"lit\" => {B1} .. ident => {Bn} }` (first arm a string literal) -> `{ let m__ = X; if str_eq(m__, \"lit\") {B1} else if .. else { let ident = m__; {Bn} } }` -- Rust's own semantics of matching a &str against literal patterns, first match wins; `str_eq` is specified as equality of the character sequences",
     "R4": "expressions replaced by an opaque value on request of @@opaque-arg (only if they contain no return / ? / break / continue)",
 }
 
@@ -119,6 +120,48 @@ def rewrite_format(text, notes, where):
         notes.append({"rule": "R2", "where": where, "dropped": text[ct[hit].start:ct[j].end]})
         text = text[:ct[hit].start] + "fmt_opaque()" + text[ct[j].end:]
 
+def rewrite_strmatch(text, notes, where):
+    """R7"""
+    while True:
+        ct = code_toks(tokenize(text))
+        hit = None
+        for i, t in enumerate(ct):
+            if t.kind == "ident" and t.text == "match":
+                k = i + 1
+                while k < len(ct) and not (ct[k].kind == "punct" and ct[k].text == "{"):
+                    if ct[k].kind == "punct" and ct[k].text in "([":
+                        k = match_close(ct, k)
+                    k += 1
+                if k + 1 < len(ct) and ct[k+1].kind == "str":
+                    hit = (i, k); break
+        if hit is None:
+            return text
+        i, k = hit
+        close = match_close(ct, k)
+        scrut = text[ct[i+1].start:ct[k-1].end]
+        arms = []
+        j = k + 1
+        while j < close:
+            pat = ct[j]
+            if not (ct[j+1].text == "=" and ct[j+2].text == ">" and ct[j+3].text == "{") or pat.kind not in ("str", "ident"):
+                raise Undecided(f"{where}: string match with an arm outside the supported shape (`pattern => {{ block }}`): rewrite R7 refused")
+            e = match_close(ct, j + 3)
+            arms.append((pat, text[ct[j+3].start:ct[e].end]))
+            j = e + 1
+            if j < close and ct[j].text == ",":
+                j += 1
+        out = ["{ let m__ = " + scrut + "; "]
+        for n, (pat, b) in enumerate(arms):
+            if pat.kind == "str":
+                out.append(("if " if n == 0 else " else if ") + f"str_eq(m__, {pat.text}) " + b)
+            else:
+                if n != len(arms) - 1:
+                    raise Undecided(f"{where}: catch-all arm is not last: rewrite R7 refused")
+                out.append(" else { let " + pat.text + " = m__; " + b + " }")
+        out.append(" }")
+        notes.append({"rule": "R7", "where": where, "arms": [p.text for p, _ in arms]})
+        text = text[:ct[i].start] + "".join(out) + text[ct[close].end:]
+
 _for_counter = [0]
 def rewrite_for(text, notes, where):
     """R1 (repeated until no `for` loop is left)"""
@@ -146,9 +189,7 @@ def rewrite_for(text, notes, where):
         expr_toks = ct[j+1:k]
         body_close = match_close(ct, k)
         body_toks = ct[k+1:body_close]
-        for t in body_toks:
-            if t.kind == "ident" and t.text == "continue":
-                raise Undecided(f"{where}: `continue` inside a for body: rewrite R1 refused")
+        has_continue = any(t.kind == "ident" and t.text == "continue" for t in body_toks)
         expr_text = text[expr_toks[0].start:expr_toks[-1].end]
         pat_text = text[pat_toks[0].start:pat_toks[-1].end]
         body_text = text[ct[k].end:ct[body_close].start]
@@ -156,6 +197,9 @@ def rewrite_for(text, notes, where):
         itn = f"it__{_for_counter[0]}"
         en = norm(expr_toks)
         if en.endswith(".enumerate()"):
+            # for (i, P) in X.enumerate(): a `continue` would skip the index increment that R1 puts at the end of the body
+            if has_continue:
+                raise Undecided(f"{where}: `continue` inside an enumerate() for body: rewrite R1 refused")
             # for (i, P) in X.enumerate()
             if not (pat_toks[0].text == "(" and pat_toks[1].kind == "ident" and pat_toks[2].text == ","):
                 raise Undecided(f"{where}: enumerate() with a pattern that is not (ident, P)")
@@ -220,6 +264,8 @@ def annotate_fn(text, fn_dirs, where, notes):
     _for_counter[0] = 0
     text = rewrite_format(text, notes, where)
     text = rewrite_for(text, notes, where)
+    if any(d["name"] == "rewrite" and d["arg"] == "strmatch" for d in fn_dirs):
+        text = rewrite_strmatch(text, notes, where)
     for d in fn_dirs:
         if d["name"] == "opaque-arg":
             text = opaque_arg(text, d, where, notes)
@@ -336,7 +382,7 @@ def annotate_fn(text, fn_dirs, where, notes):
                 ed.insert(ct[q].end, "\n" + payload)
             else:
                 raise Undecided(f"{where}: @@at needs before|after")
-        elif nm in ("fn", "opaque-arg"):
+        elif nm in ("fn", "opaque-arg", "rewrite"):
             pass
         else:
             raise Undecided(f"{d['file']}:{d['line']}: unknown fn directive @@{nm}")
@@ -373,7 +419,7 @@ def fn_name_of(it):
 def process_take(repo, d, sub, report):
     fpath, _, selector = d["arg"].partition("::")
     fpath, selector = fpath.strip(), selector.strip()
-    full = os.path.join(repo, fpath)
+    full = fpath if os.path.isabs(fpath) else os.path.join(repo, fpath)
     try:
         src = open(full).read()
     except OSError as e:
